@@ -57,6 +57,11 @@ Section Fin.
     destruct (run pre p a []) as [[tr af] o]. reflexivity.
   Qed.
 
+  Lemma fin_inj {R} (p q : prog R) a b :
+    fin p a = fin q b ->
+    snd (fst (run pre p a [])) = snd (fst (run pre q b [])) /\ snd (run pre p a []) = snd (run pre q b []).
+  Proof. unfold fin. intros E. inversion E. auto. Qed.
+
   Lemma run_fin {R} (p : prog R) a tr a' out :
     run pre p a [] = (tr, a', out) -> fin p a = (a', out).
   Proof. unfold fin. intros ->. reflexivity. Qed.
@@ -767,10 +772,10 @@ Proof.
   destruct Hin as [->|Hin]; [rewrite str_eqb_refl in E; discriminate | auto].
 Qed.
 
-Section HealthyRun.
+Section ReadableRun.
   Variable pre : bytes -> N.
   Variable a : arch.
-  Hypothesis HH : Healthy pre a.
+  Hypothesis HH : Readable pre a.
 
   Let WF : WFdirs pre a := proj1 HH.
   Let AI : AInv a := proj1 (proj2 HH).
@@ -786,7 +791,7 @@ Section HealthyRun.
   Lemma file_parent_dir' f : get a f <> None -> In (parent_f pre f) (dirs a).
   Proof. destruct (get a f) as [x|] eqn:G; [intros _; eapply file_parent_dir; eauto | congruence]. Qed.
 
-  Lemma band_healthy b : In (DBand b) (dirs a) -> BandHealthy a b.
+  Lemma band_healthy b : In (DBand b) (dirs a) -> BandReadable a b.
   Proof. pose proof HH as HH'; destruct HH' as (_ & _ & _ & HB). apply HB. Qed.
 
   Lemma band_index_dir b : In (DBand b) (dirs a) -> has_dir a (DIndex b) = true.
@@ -837,7 +842,7 @@ Section HealthyRun.
       intros Hb Hacc. destruct (band_healthy _ Hb) as (Hhead & m & H1 & H2 & Ht).
       destruct (healthy_listed _ _ H1 H2) as (C & L & Hlt).
       assert (Hbad : numbers_bad (listed_hunks pre a (N.of_nat n)) (tail_count a (N.of_nat n)) = false).
-      { unfold numbers_bad. rewrite C. cbn [negb orb]. unfold tail_count, rd.
+      { unfold numbers_bad. rewrite C. cbn [negb orb].
         destruct Ht as [-> | ->]; [reflexivity|]. rewrite L, N.eqb_refl. reflexivity. }
       assert (E : ob_pure pre keep a n last acc merr
                   = hl_pure keep a n (listed_hunks pre a (N.of_nat n)) last last acc merr).
@@ -929,9 +934,7 @@ Section HealthyRun.
       destruct (dpath_eqb_spec (DBlockSub (pre c)) (DBlockSub (pre c))); congruence.
   Qed.
 
-  (** C09, soundness: a healthy archive validates with no error, with or without reading
-      the blocks, whatever the iteration order *)
-  Theorem validate_pure_healthy skip hint :
+  Theorem validate_pure_readable skip hint :
     validate_pure pre a skip hint = {| v_ok := true; v_errors := 0 |}.
   Proof.
     unfold validate_pure. pose proof HH as HH'; destruct HH' as (_ & _ & Hhdr & _). unfold rd. rewrite Hhdr.
@@ -957,10 +960,26 @@ Section HealthyRun.
       apply N.ltb_ge. apply (E2 _ _ Hin).
   Qed.
 
-  Theorem validate_healthy_silent skip hint :
-    exists tr, run pre (validate_prog skip hint) a [] = (tr, a, Done {| v_ok := true; v_errors := 0 |}).
-  Proof. rewrite <- (validate_pure_healthy skip hint). apply validate_run. Qed.
-End HealthyRun.
+End ReadableRun.
+
+Lemma Healthy_Readable pre a : Healthy pre a -> Readable pre a.
+Proof.
+  intros (W & A & Hh & HB). split; [exact W|]. split; [exact A|]. split; [exact Hh|].
+  intros b Hb. destruct (HB b Hb) as (Hd & n & H1 & H2 & Ht).
+  split; [exact Hd|]. exists n. split; [exact H1|]. split; [exact H2|].
+  unfold tail_count, rd. destruct Ht as [-> | ->]; auto.
+Qed.
+
+(** C09, soundness: a healthy archive validates with no error, with or without reading
+    the blocks, whatever the iteration order *)
+Theorem validate_pure_healthy pre a skip hint :
+  Healthy pre a -> validate_pure pre a skip hint = {| v_ok := true; v_errors := 0 |}.
+Proof. intros H. apply validate_pure_readable. apply Healthy_Readable. exact H. Qed.
+
+Theorem validate_healthy_silent pre a skip hint :
+  Healthy pre a ->
+  exists tr, run pre (validate_prog skip hint) a [] = (tr, a, Done {| v_ok := true; v_errors := 0 |}).
+Proof. intros H. rewrite <- (validate_pure_healthy pre a skip hint H). apply validate_run. Qed.
 
 (* ------------------------------------------------------------------------- *)
 (** * 5. C16: the symlink guard of restore                                    *)
@@ -1074,3 +1093,827 @@ Proof.
   destruct (is_prefix_of (e_apath s) (e_apath e)) eqn:P; [|reflexivity].
   rewrite (H s e Hs He Hk P), str_eqb_refl. reflexivity.
 Qed.
+
+(* ------------------------------------------------------------------------- *)
+(** * 6. C17: the iteration order of the block set is irrelevant              *)
+(* ------------------------------------------------------------------------- *)
+
+Lemma bool_ext (b1 b2 : bool) : (b1 = true <-> b2 = true) -> b1 = b2.
+Proof.
+  destruct b1, b2; intros [H1 H2]; try reflexivity;
+    [symmetry; apply H1; reflexivity | apply H2; reflexivity].
+Qed.
+
+Lemma str_eqb_sym a b : str_eqb a b = str_eqb b a.
+Proof. apply bool_ext. rewrite !str_eqb_eq. split; congruence. Qed.
+
+Lemma mem_bytes_perm c l1 l2 : Permutation l1 l2 -> mem_bytes c l1 = mem_bytes c l2.
+Proof.
+  intros P. apply bool_ext. rewrite !mem_bytes_iff.
+  split; apply Permutation_in; [exact P | symmetry; exact P].
+Qed.
+
+Lemma forallb_perm {A} (f : A -> bool) l1 l2 : Permutation l1 l2 -> forallb f l1 = forallb f l2.
+Proof.
+  intros P. apply bool_ext. rewrite !forallb_forall.
+  split; intros H x Hx; apply H; [apply (Permutation_in x (Permutation_sym P) Hx) | apply (Permutation_in x P Hx)].
+Qed.
+
+Lemma filter_perm {A} (f : A -> bool) l1 l2 : Permutation l1 l2 -> Permutation (filter f l1) (filter f l2).
+Proof.
+  induction 1 as [|x l1 l2 _ IH|x y l|l1 l2 l3 _ IH1 _ IH2]; cbn [filter].
+  - constructor.
+  - destruct (f x); [constructor|]; exact IH.
+  - destruct (f x), (f y); try reflexivity. apply perm_swap.
+  - eapply perm_trans; eauto.
+Qed.
+
+Lemma nodup_app {A} (l1 l2 : list A) :
+  NoDup l1 -> NoDup l2 -> (forall x, In x l1 -> In x l2 -> False) -> NoDup (l1 ++ l2).
+Proof.
+  induction l1 as [|x l1 IH]; intros N1 N2 D; cbn [app]; [exact N2|].
+  inversion N1 as [|? ? Hni N1']; subst. constructor.
+  - intros Hin. apply in_app_or in Hin. destruct Hin as [H|H]; [contradiction|].
+    apply (D x); [left; reflexivity | exact H].
+  - apply IH; auto. intros y H1 H2. apply (D y); [right; exact H1 | exact H2].
+Qed.
+
+(* with a hint without repetition, [order_by] only permutes *)
+Lemma order_by_perm hint s : NoDup hint -> NoDup s -> Permutation (order_by hint s) s.
+Proof.
+  intros Nh Ns. apply NoDup_Permutation; [|exact Ns | intros x; apply In_order_by].
+  unfold order_by. apply nodup_app; [apply NoDup_filter; exact Nh | apply NoDup_filter; exact Ns|].
+  intros x H1 H2. apply filter_In in H1, H2. destruct H1 as [H1 _], H2 as [_ H2].
+  apply In_mem_bytes in H1. rewrite H1 in H2. discriminate.
+Qed.
+
+Lemma NoDup_filter_bytes (f : bytes -> bool) l : NoDup l -> NoDup (filter f l).
+Proof. apply NoDup_filter. Qed.
+
+Definition has_file (a : arch) (f : fpath) : bool := match get a f with Some _ => true | None => false end.
+
+(* the block files named in [l] removed *)
+Definition rm_blocks (l : list bytes) (fs : list (fpath * fcontent)) : list (fpath * fcontent) :=
+  filter (fun p => negb (match fst p with PBlock c => mem_bytes c l | _ => false end)) fs.
+
+Lemma remove_file_absent f l : lookup f l = None -> remove_file f l = l.
+Proof.
+  unfold remove_file. induction l as [|[g x] l IH]; cbn [lookup filter fst]; [reflexivity|].
+  destruct (fpath_eqb f g); [discriminate|]. intros E. cbn [negb]. rewrite IH by exact E. reflexivity.
+Qed.
+
+Lemma rm_blocks_cons c l fs : rm_blocks (c :: l) fs = rm_blocks l (remove_file (PBlock c) fs).
+Proof.
+  unfold rm_blocks, remove_file. induction fs as [|[g x] fs IH]; cbn [filter fst]; [reflexivity|].
+  destruct g as [| |b|b|b h|d]; cbn [fpath_eqb negb filter fst]; try (rewrite IH; reflexivity).
+  unfold mem_bytes at 1. cbn [existsb]. fold (mem_bytes d l).
+  rewrite (str_eqb_sym d c).
+  destruct (str_eqb c d); cbn [orb negb filter fst]; [exact IH|].
+  destruct (mem_bytes d l); cbn [negb]; rewrite IH; reflexivity.
+Qed.
+
+Lemma rm_blocks_perm l1 l2 fs : Permutation l1 l2 -> rm_blocks l1 fs = rm_blocks l2 fs.
+Proof.
+  intros P. unfold rm_blocks. apply filter_ext. intros [g x]. cbn [fst].
+  destruct g; try reflexivity. rewrite (mem_bytes_perm _ _ _ P). reflexivity.
+Qed.
+
+Section HintDelete.
+  Variable pre : bytes -> N.
+  Notation fin := (fin pre).
+
+  Lemma fin_Do_cong {R} o (k1 k2 : reply -> prog R) a :
+    (forall rep a', fin (k1 rep) a' = fin (k2 rep) a') -> fin (Do o k1) a = fin (Do o k2) a.
+  Proof. intros H. rewrite !fin_Do. apply H. Qed.
+
+  Ltac cong :=
+    repeat first
+      [ reflexivity
+      | apply fin_Do_cong; intros ? ?
+      | match goal with |- ?F (match ?x with _ => _ end) _ = _ => destruct x end ].
+
+  Lemma ref_hunks_cong b hs : forall acc k1 k2,
+    (forall acc' a', fin (k1 acc') a' = fin (k2 acc') a') ->
+    forall a, fin (ref_hunks b hs acc k1) a = fin (ref_hunks b hs acc k2) a.
+  Proof.
+    induction hs as [|h hs IH]; intros acc k1 k2 H a; cbn [ref_hunks]; [apply H|].
+    cong. apply IH. exact H.
+  Qed.
+
+  Lemma ref_subdirs_cong b subs : forall acc k1 k2,
+    (forall hs a', fin (k1 hs) a' = fin (k2 hs) a') ->
+    forall a, fin (ref_subdirs b subs acc k1) a = fin (ref_subdirs b subs acc k2) a.
+  Proof.
+    induction subs as [|s subs IH]; intros acc k1 k2 H a; cbn [ref_subdirs]; [apply H|].
+    cong. apply IH. exact H.
+  Qed.
+
+  Lemma ref_bands_cong bands : forall acc k1 k2,
+    (forall acc' a', fin (k1 acc') a' = fin (k2 acc') a') ->
+    forall a, fin (ref_bands bands acc k1) a = fin (ref_bands bands acc k2) a.
+  Proof.
+    induction bands as [|b bands IH]; intros acc k1 k2 H a; cbn [ref_bands]; [apply H|].
+    cong. apply ref_subdirs_cong. intros hs a1. apply ref_hunks_cong. intros acc' a2. apply IH. exact H.
+  Qed.
+
+  Lemma list_blocks_d_cong subs : forall acc failed k1 k2,
+    (forall l a', fin (k1 l) a' = fin (k2 l) a') ->
+    forall a, fin (list_blocks_d subs acc failed k1) a = fin (list_blocks_d subs acc failed k2) a.
+  Proof.
+    induction subs as [|s subs IH]; intros acc failed k1 k2 H a; cbn [list_blocks_d].
+    - destruct failed; [reflexivity | apply H].
+    - cong; apply IH; exact H.
+  Qed.
+
+  Lemma delete_the_bands_cong ids : forall n k1 k2,
+    (forall n' a', fin (k1 n') a' = fin (k2 n') a') ->
+    forall a, fin (delete_the_bands ids n k1) a = fin (delete_the_bands ids n k2) a.
+  Proof.
+    induction ids as [|b ids IH]; intros n k1 k2 H a; cbn [delete_the_bands]; [apply H|].
+    cong. apply IH. exact H.
+  Qed.
+
+  Lemma acquire_cong k1 k2 :
+    (forall last a', fin (k1 last) a' = fin (k2 last) a') ->
+    forall a, fin (acquire k1) a = fin (acquire k2) a.
+  Proof. intros H a. unfold acquire. cong; apply H. Qed.
+
+  (* measuring the unreferenced blocks: succeeds iff every one of them is there *)
+  Lemma measure_spec l : forall k a,
+    fin (measure l k) a
+    = if forallb (fun c => has_file a (PBlock c)) l then fin k a else fin release_fail a.
+  Proof.
+    induction l as [|c l IH]; intros k a; cbn [measure forallb]; [reflexivity|].
+    rewrite fin_meta. unfold mt, has_file at 1. destruct (get a (PBlock c)); cbn [andb]; [apply IH | reflexivity].
+  Qed.
+
+  (* removing blocks, each named once: those that are not there are counted, the others go *)
+  Lemma delete_blocks_spec l : forall errs k a, NoDup l ->
+    fin (delete_blocks l errs k) a
+    = fin (k (errs + N.of_nat (length (filter (fun c => negb (has_file a (PBlock c))) l))))
+          {| dirs := dirs a; files := rm_blocks l (files a) |}.
+  Proof.
+    induction l as [|c l IH]; intros errs k a ND; cbn [delete_blocks filter length].
+    - rewrite N.add_0_r. unfold rm_blocks. cbn [mem_bytes existsb].
+      replace (filter _ (files a)) with (files a); [destruct a; reflexivity|].
+      symmetry. rewrite <- (filter_ext (fun _ => true)); [|intros [g x]; cbn [fst]; destruct g; reflexivity].
+      induction (files a) as [|y fs IHf]; cbn [filter]; [reflexivity | rewrite IHf; reflexivity].
+    - inversion ND as [|? ? Hni ND']; subst.
+      rewrite fin_Do. cbn [exec_ok]. rewrite rm_blocks_cons. unfold has_file at 1.
+      destruct (get a (PBlock c)) as [x|] eqn:G; cbn [fst snd negb].
+      + rewrite IH by exact ND'. cbn [dirs files].
+        assert (EF : filter (fun c0 => negb (has_file {| dirs := dirs a; files := remove_file (PBlock c) (files a) |} (PBlock c0))) l
+                     = filter (fun c0 => negb (has_file a (PBlock c0))) l).
+        { apply filter_ext_in. intros c' Hc'.
+          unfold has_file, get. cbn [files]. rewrite lookup_remove_file.
+          destruct (fpath_eqb_spec (PBlock c') (PBlock c)) as [E|]; [|reflexivity].
+          inversion E; subst. contradiction. }
+        rewrite EF. reflexivity.
+      + rewrite IH by exact ND'. unfold get in G. rewrite (remove_file_absent _ _ G).
+        cbn [length]. f_equal. f_equal. lia.
+  Qed.
+
+  Lemma delete_blocks_perm l1 l2 errs k a :
+    Permutation l1 l2 -> NoDup l1 ->
+    fin (delete_blocks l1 errs k) a = fin (delete_blocks l2 errs k) a.
+  Proof.
+    intros P N1. assert (N2 : NoDup l2) by (eapply Permutation_NoDup; eauto).
+    rewrite !delete_blocks_spec by assumption.
+    rewrite (rm_blocks_perm _ _ _ P).
+    rewrite (Permutation_length (filter_perm (fun c => negb (has_file a (PBlock c))) _ _ P)). reflexivity.
+  Qed.
+
+  (* what delete does once the unreferenced blocks are known, in their iteration order *)
+  Definition del_tail (ids : list N) (dry : bool) (last : option N) (unref : list bytes) : prog dres :=
+    let nun := N.of_nat (length unref) in
+    measure unref (
+      let finish (nb : N) (errs : N) (did : bool) :=
+        Do (OpRemoveFile PLock) (fun r5 =>
+          match r5 with
+          | ROk => Ret {| d_ok := true; d_unref := nun; d_bands := nb;
+                          d_blocks := if did then nun - errs else 0; d_errs := errs |}
+          | _ => release_fail
+          end) in
+      if dry then finish 0 0 false
+      else
+        Do (OpList DRoot) (fun r3 =>
+          match r3 with
+          | RList ds3 _ =>
+              if optid_eqb (max_id (band_ids ds3)) last then
+                delete_the_bands ids 0 (fun nb =>
+                  delete_blocks unref 0 (fun errs => finish nb errs true))
+              else release_fail
+          | _ => release_fail
+          end)).
+
+  Lemma del_tail_perm ids dry last u1 u2 a :
+    Permutation u1 u2 -> NoDup u1 -> fin (del_tail ids dry last u1) a = fin (del_tail ids dry last u2) a.
+  Proof.
+    intros P N1. unfold del_tail. cbv zeta. rewrite !measure_spec.
+    rewrite (forallb_perm _ _ _ P), (Permutation_length P).
+    destruct (forallb (fun c => has_file a (PBlock c)) u2); [|reflexivity].
+    destruct dry; [reflexivity|].
+    cong. apply delete_the_bands_cong. intros nb a2. apply delete_blocks_perm; assumption.
+  Qed.
+
+  (** C17 for delete: with hints that name no block twice (the iteration order of a set),
+      the final state and the result do not depend on the hint *)
+  Theorem delete_hint_irrelevant_fin ids dry brk hint1 hint2 a :
+    NoDup hint1 -> NoDup hint2 ->
+    fin (delete_prog ids dry brk hint1) a = fin (delete_prog ids dry brk hint2) a.
+  Proof.
+    intros N1 N2.
+    assert (Hbody : forall a0,
+      fin (acquire (fun last =>
+             Do (OpList DRoot) (fun r =>
+               match r with
+               | RList ds _ =>
+                   ref_bands (filter (fun b => negb (mem_N b ids)) (sorted_N (band_ids ds))) [] (fun referenced =>
+                     Do (OpList DBlocks) (fun r2 =>
+                       match r2 with
+                       | RList ds2 _ =>
+                           list_blocks_d (block_subdirs ds2) [] false (fun present =>
+                             del_tail ids dry last
+                               (order_by hint1 (filter (fun c => negb (mem_bytes c referenced)) (dedup present))))
+                       | _ => release_fail
+                       end))
+               | _ => release_fail
+               end))) a0
+      = fin (acquire (fun last =>
+             Do (OpList DRoot) (fun r =>
+               match r with
+               | RList ds _ =>
+                   ref_bands (filter (fun b => negb (mem_N b ids)) (sorted_N (band_ids ds))) [] (fun referenced =>
+                     Do (OpList DBlocks) (fun r2 =>
+                       match r2 with
+                       | RList ds2 _ =>
+                           list_blocks_d (block_subdirs ds2) [] false (fun present =>
+                             del_tail ids dry last
+                               (order_by hint2 (filter (fun c => negb (mem_bytes c referenced)) (dedup present))))
+                       | _ => release_fail
+                       end))
+               | _ => release_fail
+               end))) a0).
+    { intros a0. apply acquire_cong. intros last a1. cong.
+      apply ref_bands_cong. intros referenced a2. cong.
+      apply list_blocks_d_cong. intros present a3.
+      assert (NS : NoDup (filter (fun c => negb (mem_bytes c referenced)) (dedup present)))
+        by (apply NoDup_filter, NoDup_dedup).
+      apply del_tail_perm.
+      - eapply perm_trans; [apply order_by_perm; assumption|].
+        symmetry. apply order_by_perm; assumption.
+      - eapply Permutation_NoDup; [symmetry; apply order_by_perm; assumption | exact NS]. }
+    unfold delete_prog. cbv zeta.
+    apply fin_Do_cong; intros r0 a0.
+    destruct r0 as [|e0|[[| | | |]| |]|ds0 fs0|ne0]; try reflexivity.
+    destruct brk; [|exact (Hbody a0)].
+    apply fin_Do_cong; intros r a1.
+    destruct r as [|e|c|ds fs|ne]; try reflexivity;
+      [destruct e; try reflexivity; exact (Hbody a1)|].
+    apply fin_Do_cong; intros r1 a2. destruct (is_ok r1); [exact (Hbody a2) | reflexivity].
+  Qed.
+
+  Theorem delete_hint_irrelevant ids dry brk hint1 hint2 a :
+    NoDup hint1 -> NoDup hint2 ->
+    snd (fst (run pre (delete_prog ids dry brk hint1) a [])) = snd (fst (run pre (delete_prog ids dry brk hint2) a []))
+    /\ snd (run pre (delete_prog ids dry brk hint1) a []) = snd (run pre (delete_prog ids dry brk hint2) a []).
+  Proof.
+    intros N1 N2. apply fin_inj. apply delete_hint_irrelevant_fin; assumption.
+  Qed.
+End HintDelete.
+
+(* ---- validate ---- *)
+Definition good_block (a : arch) (c : bytes) : bool :=
+  match get a (PBlock c) with Some (Good (PlBlock d)) => str_eqb d c | _ => false end.
+
+Lemma ra_pure_spec a l : forall acc errs,
+  ra_pure a l acc errs
+  = (acc ++ map (fun c => (c, N.of_nat (length c))) (filter (good_block a) l),
+     errs + N.of_nat (length (filter (fun c => negb (good_block a c)) l))).
+Proof.
+  induction l as [|c l IH]; intros acc errs; cbn [ra_pure filter map length].
+  - rewrite app_nil_r, N.add_0_r. reflexivity.
+  - unfold rd.
+    assert (G : good_block a c
+                = match get a (PBlock c) with Some (Good (PlBlock d)) => str_eqb d c | _ => false end)
+      by reflexivity.
+    rewrite !G. clear G.
+    assert (Hbad : ra_pure a l acc (errs + 1)
+                   = (acc ++ map (fun c => (c, N.of_nat (length c))) (filter (good_block a) l),
+                      errs + N.of_nat (S (length (filter (fun c => negb (good_block a c)) l))))).
+    { rewrite IH. f_equal. rewrite Nat2N.inj_succ. lia. }
+    destruct (get a (PBlock c)) as [[[| | | |d]| |]|]; cbn [negb map length]; try exact Hbad.
+    destruct (str_eqb d c) eqn:E; cbn [negb map length]; [|exact Hbad].
+    apply str_eqb_eq in E. subst d. rewrite IH, <- app_assoc. reflexivity.
+Qed.
+
+Lemma find_len_map_none h l :
+  ~ In h l ->
+  find (fun q : bytes * N => str_eqb (fst q) h) (map (fun c => (c, N.of_nat (length c))) l) = None.
+Proof.
+  induction l as [|c l IH]; [reflexivity|]. intros Hni. cbn [map find fst].
+  destruct (str_eqb c h) eqn:E; [apply str_eqb_eq in E; subst; exfalso; apply Hni; left; reflexivity|].
+  apply IH. intros H. apply Hni. right. exact H.
+Qed.
+
+Lemma short_or_missing_spec g p :
+  short_or_missing (map (fun c => (c, N.of_nat (length c))) g) p
+  = if mem_bytes (fst p) g then N.of_nat (length (fst p)) <? snd p else true.
+Proof.
+  unfold short_or_missing. destruct (mem_bytes (fst p) g) eqn:M.
+  - rewrite find_len_map by (apply mem_bytes_In; exact M). reflexivity.
+  - rewrite find_len_map_none; [reflexivity|]. intros H. apply In_mem_bytes in H. congruence.
+Qed.
+
+(** C17 for validate: with hints that name no block twice, the result does not depend on
+    the order in which the blocks are read *)
+Theorem validate_pure_hint_irrelevant pre a skip hint1 hint2 :
+  NoDup hint1 -> NoDup hint2 -> validate_pure pre a skip hint1 = validate_pure pre a skip hint2.
+Proof.
+  intros N1 N2. unfold validate_pure.
+  destruct (rd a PHeader) as [|e|[[| | | |]| |]|ds fs|ne]; try reflexivity.
+  destruct (has_dir a DRoot); [|reflexivity].
+  destruct (vb_pure pre a (sorted_N (band_ids (children_dirs a DRoot))) [] 0) as [lens errs].
+  destruct (has_dir a DBlocks); [|reflexivity].
+  destruct skip; [reflexivity|].
+  set (P := dedup (present0 pre a)).
+  assert (Pm : Permutation (order_by hint1 P) (order_by hint2 P)).
+  { eapply perm_trans; [apply order_by_perm; [exact N1 | apply NoDup_dedup]|].
+    symmetry. apply order_by_perm; [exact N2 | apply NoDup_dedup]. }
+  rewrite !ra_pure_spec. cbn [app].
+  rewrite (Permutation_length (filter_perm (fun c => negb (good_block a c)) _ _ Pm)).
+  f_equal. f_equal. f_equal. f_equal. apply filter_ext. intros p. rewrite !short_or_missing_spec.
+  rewrite (mem_bytes_perm _ _ _ (filter_perm (good_block a) _ _ Pm)). reflexivity.
+Qed.
+
+Theorem validate_hint_irrelevant pre a skip hint1 hint2 :
+  NoDup hint1 -> NoDup hint2 ->
+  snd (run pre (validate_prog skip hint1) a []) = snd (run pre (validate_prog skip hint2) a []).
+Proof.
+  intros N1 N2.
+  pose proof (validate_pure_ok pre a skip hint1) as E1. pose proof (validate_pure_ok pre a skip hint2) as E2.
+  rewrite <- (validate_pure_hint_irrelevant pre a skip hint1 hint2 N1 N2) in E2.
+  apply (fin_inj pre). rewrite E1, E2. reflexivity.
+Qed.
+
+(* ------------------------------------------------------------------------- *)
+(** * 7. C09 / C10, completeness: damage is reported by validate              *)
+(* ------------------------------------------------------------------------- *)
+
+Definition nsum (l : list N) : N := fold_right N.add 0 l.
+
+Lemma nsum_In x l : In x l -> x <= nsum l.
+Proof.
+  induction l as [|y l IH]; [intros []|]. intros [->|H]; cbn [nsum fold_right]; [lia|].
+  specialize (IH H). unfold nsum in IH. lia.
+Qed.
+
+Lemma filter_count_pos {A} (f : A -> bool) x l : In x l -> f x = true -> 1 <= N.of_nat (length (filter f l)).
+Proof.
+  intros Hin Hf. assert (H : In x (filter f l)) by (apply filter_In; auto).
+  destruct (filter f l); [destruct H | cbn [length]; lia].
+Qed.
+
+Lemma consecutive_In hs : forall i h,
+  consecutive hs i = true -> i <= h < i + N.of_nat (length hs) -> In h hs.
+Proof.
+  induction hs as [|x hs IH]; intros i h C Hh; cbn [consecutive length] in *; [lia|].
+  apply andb_true_iff in C. destruct C as [E C]. apply N.eqb_eq in E. subst x.
+  destruct (N.eq_dec h i) as [->|Hne]; [left; reflexivity|].
+  right. apply (IH (i + 1)); [exact C | lia].
+Qed.
+
+Lemma consecutive_lt hs : forall i h, consecutive hs i = true -> In h hs -> i <= h < i + N.of_nat (length hs).
+Proof.
+  induction hs as [|x hs IH]; intros i h C Hh; [destruct Hh|]. cbn [consecutive length] in *.
+  apply andb_true_iff in C. destruct C as [E C]. apply N.eqb_eq in E. subst x.
+  destruct Hh as [->|Hh]; [lia|]. specialize (IH _ _ C Hh). lia.
+Qed.
+
+(* ---- what validate counts per band ---- *)
+Definition band_errs (pre : bytes -> N) (a : arch) (b : N) : N :=
+  if band_opens a b then
+    match ls pre a (DBand b) with
+    | RList _ fs =>
+        (if existsb (fun p => fpath_eqb (fst p) (PHead b)) fs then 0 else 1)
+        + snd (stitch_pure pre keep_all a (N.to_nat b))
+    | _ => 1
+    end
+  else 1.
+
+Section Detect.
+  Variable pre : bytes -> N.
+  Variable a : arch.
+
+  Lemma vb_pure_errs ids : forall lens errs,
+    snd (vb_pure pre a ids lens errs) = errs + nsum (map (band_errs pre a) ids).
+  Proof.
+    induction ids as [|b ids IH]; intros lens errs; cbn [vb_pure map nsum fold_right]; [cbn [snd]; lia|].
+    fold (nsum (map (band_errs pre a) ids)). unfold band_errs at 1.
+    destruct (band_opens a b); [|rewrite IH; lia].
+    destruct (ls pre a (DBand b)) as [|e|c|ds fs|ne]; try (rewrite IH; lia).
+    destruct (stitch_pure pre keep_all a (N.to_nat b)) as [[l es] merr]. cbn [snd].
+    rewrite IH. destruct (existsb _ fs); lia.
+  Qed.
+
+  Lemma band_listed_root b : In (DBand b) (dirs a) -> In b (sorted_N (band_ids (children_dirs a DRoot))).
+  Proof.
+    intros Hb. unfold sorted_N. rewrite in_isort_N. unfold band_ids. apply in_flat_map.
+    exists (DBand b). split; [|left; reflexivity].
+    unfold children_dirs. apply filter_In. split; [exact Hb | reflexivity].
+  Qed.
+
+  (* every error counted for a band is in the result *)
+  Lemma validate_errors_ge skip hint b :
+    get a PHeader = Some (Good PlJson) -> In DRoot (dirs a) -> In (DBand b) (dirs a) ->
+    band_errs pre a b <= v_errors (validate_pure pre a skip hint).
+  Proof.
+    intros Hh HR Hb. unfold validate_pure, rd. rewrite Hh, (proj2 (has_dir_In a DRoot) HR).
+    pose proof (vb_pure_errs (sorted_N (band_ids (children_dirs a DRoot))) [] 0) as E.
+    pose proof (nsum_In _ _ (in_map (band_errs pre a) _ _ (band_listed_root b Hb))) as Hle.
+    destruct (vb_pure pre a (sorted_N (band_ids (children_dirs a DRoot))) [] 0) as [lens errs].
+    cbn [snd] in E.
+    destruct (has_dir a DBlocks); [|cbn [v_errors]; lia].
+    destruct skip; [cbn [v_errors]; lia|].
+    rewrite ra_pure_spec. cbn [v_errors]. lia.
+  Qed.
+
+  (* ---- the monitor-error count only grows ---- *)
+  Section Keep.
+    Variable keep : entry -> bool.
+
+    Lemma hl_pure_mono n hs : forall after last acc merr,
+      merr <= snd (hl_pure keep a n hs after last acc merr).
+    Proof.
+      induction hs as [|h hs IH]; intros after last acc merr; cbn [hl_pure snd]; [lia|].
+      destruct (rd a (PHunk (N.of_nat n) h)) as [|e|c|ds fs|ne];
+        try (eapply N.le_trans; [|apply IH]; lia).
+      - destruct e; cbn [snd]; try lia; (eapply N.le_trans; [|apply IH]; lia).
+      - destruct c as [p| |]; try (eapply N.le_trans; [|apply IH]; lia).
+        destruct p; try (eapply N.le_trans; [|apply IH]; lia).
+        destruct (phstep (Some es) after) as [[out|] after']; apply IH.
+    Qed.
+
+    Lemma ob_pure_mono n last acc merr : merr <= snd (ob_pure pre keep a n last acc merr).
+    Proof.
+      unfold ob_pure. destruct (head_status (rd a (PHead (N.of_nat n)))); cbn [snd]; try lia.
+      destruct (ls pre a (DIndex (N.of_nat n))); cbn [snd]; try lia.
+      eapply N.le_trans; [|apply hl_pure_mono]. destruct (numbers_bad _ _); lia.
+    Qed.
+
+    Lemma below_pure_mono n : forall last acc merr, merr <= snd (below_pure pre keep a n last acc merr).
+    Proof.
+      induction n as [|m IH]; intros last acc merr; cbn [below_pure snd]; [lia|].
+      destruct (meta_is_file (mt a (PHead (N.of_nat m)))); [|apply IH].
+      pose proof (ob_pure_mono m last acc merr) as H.
+      destruct (ob_pure pre keep a m last acc merr) as [[l ac] me]. cbn [snd] in H.
+      destruct (closed a (N.of_nat m)); cbn [snd]; [exact H|]. eapply N.le_trans; [exact H | apply IH].
+    Qed.
+
+    (* the errors of opening band [n] itself are in the result of the stitched listing *)
+    Lemma stitch_pure_ge n : snd (ob_pure pre keep a n None [] 0) <= snd (stitch_pure pre keep a n).
+    Proof.
+      unfold stitch_pure. destruct (ob_pure pre keep a n None [] 0) as [[l ac] me]. cbn [snd].
+      destruct (closed a (N.of_nat n)); cbn [snd]; [lia | apply below_pure_mono].
+    Qed.
+
+    (* an undecodable hunk among the listed ones is counted *)
+    Lemma hl_pure_bad_hunk n hs h : forall after last acc merr,
+      In h hs -> (forall h', In h' hs -> get a (PHunk (N.of_nat n) h') <> None) ->
+      (forall es, get a (PHunk (N.of_nat n) h) <> Some (Good (PlHunk es))) ->
+      merr + 1 <= snd (hl_pure keep a n hs after last acc merr).
+    Proof.
+      induction hs as [|h0 hs IH]; intros after last acc merr Hin Hex Hbad; [destruct Hin|].
+      cbn [hl_pure]. unfold rd.
+      assert (Hex' : forall h', In h' hs -> get a (PHunk (N.of_nat n) h') <> None)
+        by (intros h' Hh'; apply Hex; right; exact Hh').
+      pose proof (Hex h0 (or_introl eq_refl)) as H0.
+      destruct Hin as [->|Hin].
+      - destruct (get a (PHunk (N.of_nat n) h)) as [[[| | |es|]| |]|];
+          try (apply hl_pure_mono); [exfalso; apply (Hbad es); reflexivity | congruence].
+      - destruct (get a (PHunk (N.of_nat n) h0)) as [[[| | |es|]| |]|]; try congruence;
+          try (eapply N.le_trans; [|apply (IH after last acc (merr + 1) Hin Hex' Hbad)]; lia).
+        destruct (phstep (Some es) after) as [[out|] after']; apply IH; assumption.
+    Qed.
+  End Keep.
+
+  (* ---- class: the band head is missing or does not open ---- *)
+  Theorem validate_detects_missing_head skip hint b :
+    get a PHeader = Some (Good PlJson) -> In DRoot (dirs a) -> In (DBand b) (dirs a) ->
+    band_opens a b = false ->
+    1 <= v_errors (validate_pure pre a skip hint).
+  Proof.
+    intros Hh HR Hb Ho. eapply N.le_trans; [|apply (validate_errors_ge skip hint b); assumption].
+    unfold band_errs. rewrite Ho. lia.
+  Qed.
+
+  (* the errors of the band's own index, when the band opens and is listed *)
+  Lemma band_errs_ge b :
+    In (DBand b) (dirs a) ->
+    (band_opens a b = true -> 1 <= snd (ob_pure pre keep_all a (N.to_nat b) None [] 0)) ->
+    1 <= band_errs pre a b.
+  Proof.
+    intros Hb H. unfold band_errs. destruct (band_opens a b); [|lia]. specialize (H eq_refl).
+    unfold ls. rewrite (proj2 (has_dir_In a (DBand b)) Hb).
+    pose proof (stitch_pure_ge keep_all (N.to_nat b)). lia.
+  Qed.
+
+  (* ---- class: an index hunk file that does not decode ---- *)
+  Theorem validate_detects_bad_hunk skip hint b h :
+    get a PHeader = Some (Good PlJson) -> In DRoot (dirs a) -> In (DBand b) (dirs a) ->
+    In (DHunkSub b (h / HUNKS_PER_SUBDIR)) (dirs a) ->
+    get a (PHunk b h) <> None -> (forall es, get a (PHunk b h) <> Some (Good (PlHunk es))) ->
+    1 <= v_errors (validate_pure pre a skip hint).
+  Proof.
+    intros Hh HR Hb Hsub Hex Hbad.
+    eapply N.le_trans; [|apply (validate_errors_ge skip hint b); assumption].
+    apply band_errs_ge; [exact Hb|]. intros Ho. apply band_opens_status in Ho.
+    unfold ob_pure. rewrite N2Nat.id, Ho.
+    destruct (ls pre a (DIndex b)); cbn [snd]; try lia.
+    eapply N.le_trans; [|apply (hl_pure_bad_hunk keep_all (N.to_nat b) _ h)].
+    - destruct (numbers_bad _ _); lia.
+    - apply hunk_file_listed; assumption.
+    - intros h' Hh'. rewrite N2Nat.id. apply (listed_hunks_exist pre a b h' Hh').
+    - rewrite N2Nat.id. exact Hbad.
+  Qed.
+
+  (* the hunk numbers are found wrong *)
+  Lemma numbers_bad_ge b :
+    In (DBand b) (dirs a) -> has_dir a (DIndex b) = true ->
+    numbers_bad (listed_hunks pre a b) (tail_count a b) = true ->
+    1 <= band_errs pre a b.
+  Proof.
+    intros Hb Hi Hn. apply band_errs_ge; [exact Hb|]. intros Ho. apply band_opens_status in Ho.
+    unfold ob_pure. rewrite N2Nat.id, Ho. unfold ls. rewrite Hi, Hn.
+    eapply N.le_trans; [|apply hl_pure_mono]. lia.
+  Qed.
+
+  Lemma index_missing_ge b : In (DBand b) (dirs a) -> has_dir a (DIndex b) = false -> 1 <= band_errs pre a b.
+  Proof.
+    intros Hb Hi. apply band_errs_ge; [exact Hb|]. intros Ho. apply band_opens_status in Ho.
+    unfold ob_pure. rewrite N2Nat.id, Ho. unfold ls. rewrite Hi. cbn [snd]. lia.
+  Qed.
+
+  (* ---- class: a hunk missing from a band whose tail states the count ---- *)
+  Theorem validate_detects_missing_hunk_closed_band skip hint b n k :
+    get a PHeader = Some (Good PlJson) -> In DRoot (dirs a) -> In (DBand b) (dirs a) ->
+    get a (PTail b) = Some (Good (PlTail (Some n))) -> k < n -> get a (PHunk b k) = None ->
+    1 <= v_errors (validate_pure pre a skip hint).
+  Proof.
+    intros Hh HR Hb Ht Hk Hg.
+    eapply N.le_trans; [|apply (validate_errors_ge skip hint b); assumption].
+    destruct (has_dir a (DIndex b)) eqn:Hi; [|apply index_missing_ge; assumption].
+    apply numbers_bad_ge; [exact Hb | exact Hi|].
+    unfold numbers_bad, tail_count, rd. rewrite Ht.
+    destruct (consecutive (listed_hunks pre a b) 0) eqn:C; [|reflexivity]. cbn [negb orb].
+    apply negb_true_iff. apply N.eqb_neq. intros E.
+    apply (listed_hunks_exist pre a b k); [|exact Hg].
+    apply (consecutive_In _ 0 k C). lia.
+  Qed.
+
+  (* ---- class: a hunk missing below a hunk that is there ---- *)
+  Theorem validate_detects_missing_middle_hunk skip hint b k j :
+    get a PHeader = Some (Good PlJson) -> In DRoot (dirs a) -> In (DBand b) (dirs a) ->
+    get a (PHunk b k) = None -> k < j ->
+    get a (PHunk b j) <> None -> In (DHunkSub b (j / HUNKS_PER_SUBDIR)) (dirs a) ->
+    1 <= v_errors (validate_pure pre a skip hint).
+  Proof.
+    intros Hh HR Hb Hg Hkj Hj Hsub.
+    eapply N.le_trans; [|apply (validate_errors_ge skip hint b); assumption].
+    destruct (has_dir a (DIndex b)) eqn:Hi; [|apply index_missing_ge; assumption].
+    apply numbers_bad_ge; [exact Hb | exact Hi|].
+    unfold numbers_bad.
+    destruct (consecutive (listed_hunks pre a b) 0) eqn:C; [|reflexivity]. exfalso.
+    apply (listed_hunks_exist pre a b k); [|exact Hg].
+    pose proof (consecutive_lt _ 0 j C (hunk_file_listed pre a b j Hj Hsub)).
+    apply (consecutive_In _ 0 k C). lia.
+  Qed.
+End Detect.
+
+(* ---- the blocks validate expects: every address of every file entry it lists ---- *)
+Lemma upd_max_keys h len m k : In k (map fst m) -> In k (map fst (upd_max h len m)).
+Proof.
+  intros Hk. unfold upd_max. destruct (existsb (fun p => str_eqb (fst p) h) m).
+  - rewrite map_map. apply in_map_iff in Hk. destruct Hk as [[h0 l0] [E Hin]]. cbn [fst] in E. subst h0.
+    apply in_map_iff. exists (k, l0). split; [|exact Hin]. cbn [fst].
+    destruct (str_eqb k h) eqn:Ek; [apply str_eqb_eq in Ek; subst; reflexivity | reflexivity].
+  - rewrite map_app. apply in_or_app. left. exact Hk.
+Qed.
+
+Lemma upd_max_key h len m : In h (map fst (upd_max h len m)).
+Proof.
+  unfold upd_max. destruct (existsb (fun p => str_eqb (fst p) h) m) eqn:Ex.
+  - apply existsb_exists in Ex. destruct Ex as [[h0 l0] [Hin E]]. cbn [fst] in E.
+    apply in_map_iff. exists (h, N.max l0 len). split; [reflexivity|].
+    apply in_map_iff. exists (h0, l0). split; [|exact Hin]. cbn [fst snd]. rewrite E. reflexivity.
+  - rewrite map_app. apply in_or_app. right. left. reflexivity.
+Qed.
+
+Lemma addrs_keys_mono addrs : forall m k,
+  In k (map fst m) ->
+  In k (map fst (fold_left (fun m ad => upd_max (a_hash ad) (a_start ad + a_len ad) m) addrs m)).
+Proof.
+  induction addrs as [|ad addrs IH]; intros m k Hk; cbn [fold_left]; [exact Hk|].
+  apply IH. apply upd_max_keys. exact Hk.
+Qed.
+
+Lemma addrs_keys_has addrs : forall m ad,
+  In ad addrs ->
+  In (a_hash ad) (map fst (fold_left (fun m ad => upd_max (a_hash ad) (a_start ad + a_len ad) m) addrs m)).
+Proof.
+  induction addrs as [|ad0 addrs IH]; intros m ad Hin; [destruct Hin|]. cbn [fold_left].
+  destruct Hin as [->|Hin]; [apply addrs_keys_mono, upd_max_key | apply IH; exact Hin].
+Qed.
+
+Lemma entry_lens_mono es : forall m k, In k (map fst m) -> In k (map fst (entry_lens es m)).
+Proof.
+  unfold entry_lens. induction es as [|e es IH]; intros m k Hk; cbn [fold_left]; [exact Hk|].
+  apply IH. destruct (e_kind e); auto. apply addrs_keys_mono. exact Hk.
+Qed.
+
+Lemma entry_lens_has es : forall m e ad,
+  In e es -> e_kind e = KFile -> In ad (e_addrs e) -> In (a_hash ad) (map fst (entry_lens es m)).
+Proof.
+  induction es as [|e0 es IH]; intros m e ad Hin Hk Had; [destruct Hin|].
+  destruct Hin as [->|Hin].
+  - unfold entry_lens. cbn [fold_left]. rewrite Hk. apply (entry_lens_mono es). apply addrs_keys_has. exact Had.
+  - unfold entry_lens. cbn [fold_left]. apply (IH _ e ad Hin Hk Had).
+Qed.
+
+Section DetectBlocks.
+  Variable pre : bytes -> N.
+  Variable a : arch.
+
+  Section Keep.
+    Variable keep : entry -> bool.
+
+    Lemma hl_pure_acc_mono n hs : forall after last acc merr e,
+      In e acc -> In e (snd (fst (hl_pure keep a n hs after last acc merr))).
+    Proof.
+      induction hs as [|h hs IH]; intros after last acc merr e He; cbn [hl_pure]; [exact He|].
+      destruct (rd a (PHunk (N.of_nat n) h)) as [|k|c|ds fs|ne]; try (apply IH; exact He).
+      - destruct k; try (apply IH; exact He). exact He.
+      - destruct c as [p| |]; try (apply IH; exact He). destruct p; try (apply IH; exact He).
+        destruct (phstep (Some es) after) as [[out|] after']; apply IH; [|exact He].
+        apply in_or_app. left. exact He.
+    Qed.
+
+    Lemma ob_pure_acc_mono n last acc merr e :
+      In e acc -> In e (snd (fst (ob_pure pre keep a n last acc merr))).
+    Proof.
+      intros He. unfold ob_pure. destruct (head_status (rd a (PHead (N.of_nat n)))); try exact He.
+      destruct (ls pre a (DIndex (N.of_nat n))); try exact He. apply hl_pure_acc_mono. exact He.
+    Qed.
+
+    Lemma below_pure_acc_mono n : forall last acc merr e,
+      In e acc -> In e (snd (fst (below_pure pre keep a n last acc merr))).
+    Proof.
+      induction n as [|m IH]; intros last acc merr e He; cbn [below_pure]; [exact He|].
+      destruct (meta_is_file (mt a (PHead (N.of_nat m)))); [|apply IH; exact He].
+      pose proof (ob_pure_acc_mono m last acc merr e He) as H.
+      destruct (ob_pure pre keep a m last acc merr) as [[l ac] me]. cbn [fst snd] in H.
+      destruct (closed a (N.of_nat m)); [exact H | apply IH; exact H].
+    Qed.
+
+    (* read from its own start, a band yields every (kept) entry of every listed hunk *)
+    Lemma hl_pure_contains n hs h es e : forall last acc merr,
+      In h hs -> (forall h', In h' hs -> get a (PHunk (N.of_nat n) h') <> None) ->
+      get a (PHunk (N.of_nat n) h) = Some (Good (PlHunk es)) -> In e es -> keep e = true ->
+      In e (snd (fst (hl_pure keep a n hs None last acc merr))).
+    Proof.
+      induction hs as [|h0 hs IH]; intros last acc merr Hin Hex G He Hk; [destruct Hin|].
+      cbn [hl_pure]. unfold rd.
+      assert (Hex' : forall h', In h' hs -> get a (PHunk (N.of_nat n) h') <> None)
+        by (intros h' Hh'; apply Hex; right; exact Hh').
+      pose proof (Hex h0 (or_introl eq_refl)) as H0.
+      destruct Hin as [->|Hin].
+      - rewrite G. cbn [hunk_step]. destruct es as [|e0 es']; [destruct He|].
+        apply hl_pure_acc_mono. apply in_or_app. right. apply filter_In. auto.
+      - destruct (get a (PHunk (N.of_nat n) h0)) as [[[| | |es0|]| |]|]; try congruence;
+          try (apply IH; assumption).
+        cbn [hunk_step]. destruct es0; apply IH; assumption.
+    Qed.
+
+    Lemma stitch_pure_contains b h es e :
+      band_opens a b = true -> has_dir a (DIndex b) = true ->
+      In (DHunkSub b (h / HUNKS_PER_SUBDIR)) (dirs a) ->
+      get a (PHunk b h) = Some (Good (PlHunk es)) -> In e es -> keep e = true ->
+      In e (snd (fst (stitch_pure pre keep a (N.to_nat b)))).
+    Proof.
+      intros Ho Hi Hsub G He Hk. apply band_opens_status in Ho.
+      assert (H : In e (snd (fst (ob_pure pre keep a (N.to_nat b) None [] 0)))).
+      { unfold ob_pure. rewrite N2Nat.id, Ho. unfold ls. rewrite Hi.
+        apply (hl_pure_contains (N.to_nat b) _ h es e); auto.
+        - apply hunk_file_listed; [congruence | exact Hsub].
+        - intros h' Hh'. rewrite N2Nat.id. apply (listed_hunks_exist pre a b h' Hh').
+        - rewrite N2Nat.id. exact G. }
+      unfold stitch_pure. destruct (ob_pure pre keep a (N.to_nat b) None [] 0) as [[l ac] me].
+      cbn [fst snd] in H. rewrite N2Nat.id.
+      destruct (closed a b); [exact H | apply below_pure_acc_mono; exact H].
+    Qed.
+  End Keep.
+
+  Lemma vb_pure_keys_mono ids : forall lens errs k,
+    In k (map fst lens) -> In k (map fst (fst (vb_pure pre a ids lens errs))).
+  Proof.
+    induction ids as [|b ids IH]; intros lens errs k Hk; cbn [vb_pure]; [exact Hk|].
+    destruct (band_opens a b); [|apply IH; exact Hk].
+    destruct (ls pre a (DBand b)); try (apply IH; exact Hk).
+    destruct (stitch_pure pre keep_all a (N.to_nat b)) as [[l es] merr].
+    apply IH. apply entry_lens_mono. exact Hk.
+  Qed.
+
+  Lemma vb_pure_keys_has ids : forall lens errs b e ad,
+    In b ids -> band_opens a b = true -> has_dir a (DBand b) = true ->
+    In e (snd (fst (stitch_pure pre keep_all a (N.to_nat b)))) -> e_kind e = KFile -> In ad (e_addrs e) ->
+    In (a_hash ad) (map fst (fst (vb_pure pre a ids lens errs))).
+  Proof.
+    induction ids as [|b0 ids IH]; intros lens errs b e ad Hin Ho Hd He Hk Had; [destruct Hin|].
+    cbn [vb_pure]. destruct Hin as [->|Hin].
+    - rewrite Ho. unfold ls. rewrite Hd.
+      destruct (stitch_pure pre keep_all a (N.to_nat b)) as [[l es] merr]. cbn [fst snd] in He.
+      apply vb_pure_keys_mono. eapply entry_lens_has; eauto.
+    - destruct (band_opens a b0); [|eapply IH; eauto].
+      destruct (ls pre a (DBand b0)); try (eapply IH; eauto).
+      destruct (stitch_pure pre keep_all a (N.to_nat b0)) as [[l es] merr]. eapply IH; eauto.
+  Qed.
+
+  Lemma present0_exists c : In c (present0 pre a) -> get a (PBlock c) <> None.
+  Proof.
+    unfold present0. rewrite in_flat_map. intros [s [_ Hc]].
+    unfold listed_blocks in Hc. apply in_flat_map in Hc. destruct Hc as [[f ne] [Hin Hc]].
+    destruct f; try destruct Hc. destruct ne; [destruct Hc as [<-|[]] | destruct Hc].
+    unfold children_files in Hin. apply in_map_iff in Hin. destruct Hin as [[g x] [E Hg]].
+    cbn [fst snd] in E. inversion E; subst g. apply filter_In in Hg. destruct Hg as [Hg _].
+    apply In_keys_get. apply (in_map fst) in Hg. exact Hg.
+  Qed.
+
+  (* a file entry of a listed, decodable hunk names a block *)
+  Definition names_block (b h : N) (c : bytes) : Prop :=
+    exists es e ad,
+      get a (PHunk b h) = Some (Good (PlHunk es)) /\ In e es /\ e_kind e = KFile
+      /\ In ad (e_addrs e) /\ a_hash ad = c.
+
+  Lemma expected_or_band_error b h c :
+    In (DBand b) (dirs a) -> In (DHunkSub b (h / HUNKS_PER_SUBDIR)) (dirs a) -> names_block b h c ->
+    1 <= band_errs pre a b
+    \/ forall lens errs, In c (map fst (fst (vb_pure pre a (sorted_N (band_ids (children_dirs a DRoot))) lens errs))).
+  Proof.
+    intros Hb Hsub (es & e & ad & G & He & Hk & Had & <-).
+    destruct (band_opens a b) eqn:Ho; [|left; unfold band_errs; rewrite Ho; lia].
+    destruct (has_dir a (DIndex b)) eqn:Hi; [|left; apply index_missing_ge; assumption].
+    right. intros lens errs.
+    apply (vb_pure_keys_has _ lens errs b e ad); auto.
+    - apply band_listed_root. exact Hb.
+    - apply has_dir_In. exact Hb.
+    - eapply stitch_pure_contains; eauto.
+  Qed.
+
+  (* ---- class: a referenced block that is missing, zero-length, undecodable or altered:
+          detected when the blocks are read ---- *)
+  Theorem validate_detects_unreadable_block hint b h c :
+    get a PHeader = Some (Good PlJson) -> In DRoot (dirs a) -> In DBlocks (dirs a) ->
+    In (DBand b) (dirs a) -> In (DHunkSub b (h / HUNKS_PER_SUBDIR)) (dirs a) ->
+    names_block b h c -> good_block a c = false ->
+    1 <= v_errors (validate_pure pre a false hint).
+  Proof.
+    intros Hh HR HB Hb Hsub Hn Hg.
+    destruct (expected_or_band_error b h c Hb Hsub Hn) as [H|H].
+    { eapply N.le_trans; [exact H | apply validate_errors_ge; assumption]. }
+    unfold validate_pure, rd. rewrite Hh, (proj2 (has_dir_In a DRoot) HR), (proj2 (has_dir_In a DBlocks) HB).
+    specialize (H [] 0).
+    destruct (vb_pure pre a (sorted_N (band_ids (children_dirs a DRoot))) [] 0) as [lens errs].
+    cbn [fst] in H. apply in_map_iff in H. destruct H as [[c' len] [E Hin]]. cbn [fst] in E. subst c'.
+    rewrite ra_pure_spec. cbn [v_errors app].
+    pose proof (filter_count_pos (short_or_missing
+      (map (fun c0 => (c0, N.of_nat (length c0)))
+         (filter (good_block a) (order_by hint (dedup (present0 pre a)))))) (c, len) lens Hin) as Hc.
+    rewrite short_or_missing_spec in Hc. cbn [fst] in Hc.
+    destruct (mem_bytes c (filter (good_block a) (order_by hint (dedup (present0 pre a))))) eqn:M.
+    - apply mem_bytes_In, filter_In in M. destruct M as [_ M]. congruence.
+    - specialize (Hc eq_refl). lia.
+  Qed.
+
+  (* ---- class: a referenced block that is missing: detected also without reading the blocks ---- *)
+  Theorem validate_detects_missing_block skip hint b h c :
+    get a PHeader = Some (Good PlJson) -> In DRoot (dirs a) -> In DBlocks (dirs a) ->
+    In (DBand b) (dirs a) -> In (DHunkSub b (h / HUNKS_PER_SUBDIR)) (dirs a) ->
+    names_block b h c -> get a (PBlock c) = None ->
+    1 <= v_errors (validate_pure pre a skip hint).
+  Proof.
+    intros Hh HR HB Hb Hsub Hn Hg. destruct skip.
+    2:{ eapply validate_detects_unreadable_block; eauto. unfold good_block. rewrite Hg. reflexivity. }
+    destruct (expected_or_band_error b h c Hb Hsub Hn) as [H|H].
+    { eapply N.le_trans; [exact H | apply validate_errors_ge; assumption]. }
+    unfold validate_pure, rd. rewrite Hh, (proj2 (has_dir_In a DRoot) HR), (proj2 (has_dir_In a DBlocks) HB).
+    specialize (H [] 0).
+    destruct (vb_pure pre a (sorted_N (band_ids (children_dirs a DRoot))) [] 0) as [lens errs].
+    cbn [fst] in H. apply in_map_iff in H. destruct H as [[c' len] [E Hin]]. cbn [fst] in E. subst c'.
+    cbn [v_errors].
+    pose proof (filter_count_pos (fun p => negb (mem_bytes (fst p) (dedup (present0 pre a)))) (c, len) lens Hin) as Hc.
+    cbn [fst] in Hc.
+    destruct (mem_bytes c (dedup (present0 pre a))) eqn:M.
+    - apply mem_bytes_In, In_dedup, present0_exists in M. congruence.
+    - specialize (Hc eq_refl). lia.
+  Qed.
+End DetectBlocks.
